@@ -139,11 +139,11 @@ fn read_disconnect_requests(mut r: EventReader<DisconnectRequest>, mut o: ResMut
     }
 }
 
-fn note_plain(o: &mut Observed, s: &Seq, tick: &ServerUpdateTick, from: Option<Entity>) {
+fn note_plain(o: &mut Observed, s: &Seq, tick: &Option<Res<ServerUpdateTick>>, from: Option<Entity>) {
     o.0.push(Obs {
         tag: s[1],
         n: s[2],
-        update_tick: tick.get(),
+        update_tick: tick.as_ref().map(|t| t.get()).unwrap_or(0),
         entity: None,
         entity_as_server: None,
         entity_alive: false,
@@ -153,7 +153,11 @@ fn note_plain(o: &mut Observed, s: &Seq, tick: &ServerUpdateTick, from: Option<E
 
 macro_rules! server_reader {
     ($fn:ident, $t:ty) => {
-        fn $fn(mut r: EventReader<$t>, tick: Res<ServerUpdateTick>, mut o: ResMut<Observed>) {
+        fn $fn(
+            mut r: EventReader<$t>,
+            tick: Option<Res<ServerUpdateTick>>,
+            mut o: ResMut<Observed>,
+        ) {
             for e in r.read() {
                 note_plain(&mut o, &e.0, &tick, None);
             }
@@ -169,7 +173,7 @@ macro_rules! client_reader {
     ($fn:ident, $t:ty) => {
         fn $fn(
             mut r: EventReader<FromClient<$t>>,
-            tick: Res<ServerUpdateTick>,
+            tick: Option<Res<ServerUpdateTick>>,
             mut o: ResMut<Observed>,
         ) {
             for e in r.read() {
@@ -185,9 +189,9 @@ client_reader!(read_c3, C3);
 fn note_entity(
     o: &mut Observed,
     s: &Seq,
-    tick: &ServerUpdateTick,
+    tick: &Option<Res<ServerUpdateTick>>,
     e: Entity,
-    map: &ServerEntityMap,
+    map: &Option<Res<ServerEntityMap>>,
     entities: &bevy::ecs::entity::Entities,
     from: Option<Entity>,
 ) {
@@ -195,9 +199,11 @@ fn note_entity(
     o.0.push(Obs {
         tag: s[1],
         n: s[2],
-        update_tick: tick.get(),
+        update_tick: tick.as_ref().map(|t| t.get()).unwrap_or(0),
         entity: has.then(|| e.to_bits()),
-        entity_as_server: map.to_server().get(&e).map(|s| s.to_bits()),
+        entity_as_server: map
+            .as_ref()
+            .and_then(|m| m.to_server().get(&e).map(|s| s.to_bits())),
         entity_alive: has && entities.contains(e),
         from: from.map(|e| e.to_bits()),
     });
@@ -205,8 +211,8 @@ fn note_entity(
 
 fn read_em(
     mut r: EventReader<EM>,
-    tick: Res<ServerUpdateTick>,
-    map: Res<ServerEntityMap>,
+    tick: Option<Res<ServerUpdateTick>>,
+    map: Option<Res<ServerEntityMap>>,
     entities: &bevy::ecs::entity::Entities,
     mut o: ResMut<Observed>,
 ) {
@@ -217,8 +223,8 @@ fn read_em(
 
 fn read_cm(
     mut r: EventReader<FromClient<CM>>,
-    tick: Res<ServerUpdateTick>,
-    map: Res<ServerEntityMap>,
+    tick: Option<Res<ServerUpdateTick>>,
+    map: Option<Res<ServerEntityMap>>,
     entities: &bevy::ecs::entity::Entities,
     mut o: ResMut<Observed>,
 ) {
@@ -272,8 +278,8 @@ pub fn register(app: &mut App) {
     );
     app.add_observer(
         |t: Trigger<T1>,
-         tick: Res<ServerUpdateTick>,
-         map: Res<ServerEntityMap>,
+         tick: Option<Res<ServerUpdateTick>>,
+         map: Option<Res<ServerEntityMap>>,
          entities: &bevy::ecs::entity::Entities,
          mut o: ResMut<Observed>| {
             note_entity(&mut o, &t.event().0, &tick, t.target(), &map, entities, None);
@@ -281,8 +287,8 @@ pub fn register(app: &mut App) {
     );
     app.add_observer(
         |t: Trigger<TI>,
-         tick: Res<ServerUpdateTick>,
-         map: Res<ServerEntityMap>,
+         tick: Option<Res<ServerUpdateTick>>,
+         map: Option<Res<ServerEntityMap>>,
          entities: &bevy::ecs::entity::Entities,
          mut o: ResMut<Observed>| {
             note_entity(&mut o, &t.event().0, &tick, t.target(), &map, entities, None);
@@ -290,8 +296,8 @@ pub fn register(app: &mut App) {
     );
     app.add_observer(
         |t: Trigger<FromClient<CT>>,
-         tick: Res<ServerUpdateTick>,
-         map: Res<ServerEntityMap>,
+         tick: Option<Res<ServerUpdateTick>>,
+         map: Option<Res<ServerEntityMap>>,
          entities: &bevy::ecs::entity::Entities,
          mut o: ResMut<Observed>| {
             note_entity(
@@ -343,6 +349,9 @@ pub enum EvOp {
     Disconnect(u8),
     /// Custom authorization: insert `AuthorizedClient` on the client's connection entity.
     Authorize(u8),
+    /// The server stops (all clients are dropped) / starts again.
+    StopServer,
+    StartServer,
 }
 
 impl EvOp {
@@ -366,6 +375,8 @@ impl EvOp {
             EvOp::Connect(c) => format!("connect c{c}"),
             EvOp::Disconnect(c) => format!("disconnect c{c}"),
             EvOp::Authorize(c) => format!("authorize c{c}"),
+            EvOp::StopServer => "stop server".into(),
+            EvOp::StartServer => "start server".into(),
         }
     }
 }
@@ -397,6 +408,10 @@ pub struct EvEnv {
     pub drop_unreliable: bool,
     /// Client -> server event channels may be held for a step.
     pub hold_client_events: bool,
+    /// Mutate messages may be held for a step.
+    pub hold_mutations: bool,
+    /// Acknowledgements may be held for a step.
+    pub hold_acks: bool,
 }
 
 #[derive(Clone, Debug, Serialize, Default)]
@@ -405,6 +420,8 @@ pub struct EvOracles {
     pub c05: bool,
     pub c07: bool,
     pub convergence: bool,
+    /// C09: per-frame confirmed-tick oracle per session, no traffic for closed connections.
+    pub c09: bool,
 }
 
 #[derive(Clone, Debug, Serialize)]
@@ -458,6 +475,7 @@ pub struct EvExec {
     states: Vec<u64>,
     events_emitted: u32,
     events_observed: u32,
+    ops_applied: u32,
 }
 
 const UPD: usize = 0;
@@ -507,7 +525,9 @@ impl EvCell {
                         })
                     })
             }
-            EvOp::Connect(c) => !Self::connected(x, c as usize),
+            EvOp::Connect(c) => !Self::connected(x, c as usize) && x.sim.server_running(),
+            EvOp::StopServer => x.sim.server_running(),
+            EvOp::StartServer => !x.sim.server_running(),
             EvOp::Disconnect(c) => Self::connected(x, c as usize),
             EvOp::Authorize(c) => {
                 self.cfg.auth == Auth::Custom
@@ -541,6 +561,8 @@ impl EvCell {
             EvOp::World(op) => x.sim.apply_op(op),
             EvOp::Connect(c) => x.sim.connect(c as usize),
             EvOp::Disconnect(c) => x.sim.disconnect(c as usize),
+            EvOp::StopServer => x.sim.stop_server(),
+            EvOp::StartServer => x.sim.start_server(),
             EvOp::Authorize(c) => {
                 let conn = x.sim.clients[c as usize].conn.unwrap();
                 x.sim.server.world_mut().entity_mut(conn).insert(AuthorizedClient);
@@ -958,6 +980,12 @@ impl EvCell {
         x.sim.server_frame(tick).map_err(|v| self.own(v))?;
         self.scan_server_wire(x)?;
         self.check_server_observations(x)?;
+        if self.oracles.c09 && x.sim.orphan_messages > 0 {
+            return Err(self.v(
+                "message-for-closed-connection",
+                format!("the server produced {} message(s) for a connection that no longer exists", x.sim.orphan_messages),
+            ));
+        }
         let mut h = std::collections::hash_map::DefaultHasher::new();
         (x.sim.server_tick(), x.sim.in_flight_digest(), x.sim.server_snap()).hash(&mut h);
         x.states.push(h.finish());
@@ -969,6 +997,9 @@ impl EvCell {
         self.scan_client_wire(x, c)?;
         self.check_client_observations(x, c)?;
         let view = x.sim.client_view(c);
+        if self.oracles.c09 && x.sim.clients[c].conn.is_some() {
+            x.sim.check_confirmed(c, &view).map_err(|v| self.own(v))?;
+        }
         let mut h = std::collections::hash_map::DefaultHasher::new();
         (c, &view, x.sim.in_flight_digest()).hash(&mut h);
         h.finish().hash(&mut x.sim.trace);
@@ -1133,6 +1164,7 @@ impl Scenario for EvCell {
             states: vec![],
             events_emitted: 0,
             events_observed: 0,
+            ops_applied: 0,
         };
         let r = (|| -> Result<(), Violation> {
             self.lockstep_round(&mut x, true)?;
@@ -1173,6 +1205,9 @@ impl Scenario for EvCell {
                         alts.push(("reversed".into(), 1));
                     }
                 }
+                if self.env.hold_acks && !x.sim.clients[c].c2s[0].is_empty() {
+                    alts.push(("hold acks".into(), 1));
+                }
                 Some(ChoicePoint::env("to-server", alts))
             }
             Phase::Upd(c) => {
@@ -1180,6 +1215,9 @@ impl Scenario for EvCell {
                 let mut alts = vec![("all".to_string(), 0)];
                 for k in 1..=self.env.hold_updates.min(n) {
                     alts.push((format!("hold last {k} of {n}"), 1));
+                }
+                if self.env.hold_mutations && !x.sim.clients[c].s2c[MUT].is_empty() {
+                    alts.push(("hold mutations".into(), 1));
                 }
                 Some(ChoicePoint::env("upd", alts))
             }
@@ -1211,6 +1249,9 @@ impl Scenario for EvCell {
                 let op = ops[alt];
                 x.round_op = op;
                 x.round_tick = true;
+                if op != EvOp::Nop {
+                    x.ops_applied += 1;
+                }
                 self.apply_ev_op(x, op);
                 self.advance(x);
             }
@@ -1219,13 +1260,15 @@ impl Scenario for EvCell {
                 self.advance(x);
             }
             Phase::ToServer(c) => {
-                // acks always flow; event channels per the choice
-                x.sim.deliver_to_server(c, 0, &Sel::All);
                 let label = self.next(x).unwrap().alts[alt].clone();
+                // acks flow unless this alternative holds them
+                if label != "hold acks" {
+                    x.sim.deliver_to_server(c, 0, &Sel::All);
+                }
                 for (kind, ch) in self.client_event_channels(x) {
                     let n = x.sim.clients[c].c2s[ch].len();
                     match label.as_str() {
-                        "deliver" => {
+                        "deliver" | "hold acks" => {
                             x.sim.deliver_to_server(c, ch, &Sel::All);
                         }
                         "reversed" if !kind.ordered() => {
@@ -1239,7 +1282,7 @@ impl Scenario for EvCell {
                 }
                 // the protocol hash trigger channel (default auth) sits before the vocabulary
                 if self.cfg.auth == Auth::ProtocolCheck {
-                    if label == "deliver" {
+                    if label == "deliver" || label == "hold acks" {
                         x.sim.deliver_to_server(c, 1, &Sel::All);
                     }
                 }
@@ -1249,13 +1292,19 @@ impl Scenario for EvCell {
                 self.advance(x);
             }
             Phase::Upd(c) => {
+                let label = self.next(x).unwrap().alts[alt].clone();
                 let n = x.sim.clients[c].s2c[UPD].len();
-                let k = n - alt;
-                if alt > 0 {
-                    x.line.push_str(&format!(" updates {k} of {n};"));
+                if label == "hold mutations" {
+                    x.line.push_str(" mutations held;");
+                    x.sim.deliver_to_client(c, UPD, &Sel::All);
+                } else {
+                    let k = n - alt;
+                    if alt > 0 {
+                        x.line.push_str(&format!(" updates {k} of {n};"));
+                    }
+                    x.sim.deliver_to_client(c, UPD, &Sel::Prefix(k));
+                    x.sim.deliver_to_client(c, MUT, &Sel::All);
                 }
-                x.sim.deliver_to_client(c, UPD, &Sel::Prefix(k));
-                x.sim.deliver_to_client(c, MUT, &Sel::All);
                 self.advance(x);
             }
             Phase::Events(c) => {
@@ -1357,9 +1406,19 @@ impl Scenario for EvCell {
         let mut oh = std::collections::hash_map::DefaultHasher::new();
         x.delivered.hash(&mut oh);
         x.server_delivered.hash(&mut oh);
+        x.sim.server_snap().hash(&mut oh);
+        for c in 0..self.clients() {
+            let view = x.sim.client_view(c);
+            view.ents
+                .iter()
+                .map(|(e, ce)| (*e, ce.comps.clone()))
+                .collect::<Vec<_>>()
+                .hash(&mut oh);
+        }
         Summary {
             outcome: oh.finish(),
-            nontrivial: x.events_emitted > 0 && (x.events_observed > 0 || self.oracles.c07),
+            nontrivial: (x.events_emitted > 0 && (x.events_observed > 0 || self.oracles.c07))
+                || (self.oracles.c09 && x.ops_applied > 0),
             states: std::mem::take(&mut x.states),
             transitions: x.sim.transitions,
             trace_digest: x.sim.trace.clone().finish(),
